@@ -10,7 +10,8 @@ EXTENDS Integers, Sequences, FiniteSets, TLC
 
 CONSTANTS Workers,     \* worker numbers that may ever be used, e.g. 0..3
           Tasks,       \* task ids 1..n
-          Follow       \* Follow[t] = task that t's body submits when run (0 = none)
+          Follow,      \* Follow[t] = task that t's body submits when run (0 = none)
+          Waits        \* Waits[t] = task whose execution t's body waits for before it returns (0 = none): a long poll
 
 SetMin(S) == CHOOSE x \in S : \A y \in S : x <= y
 
@@ -67,7 +68,9 @@ HRun(s, w)    == LET t == s.held[w]                            \* pc = "run": ta
                               !.pc[w] = IF Follow[t] # 0 THEN "follow" ELSE "outside"]
 HFollow(s, w) == AddTask([s EXCEPT !.pc[w] = "outside"], Follow[s.held[w]])
 
-WorkerEnabled(s, w) == s.pc[w] \in {"outside", "woken", "run", "follow"}
+WorkerEnabled(s, w) == /\ s.pc[w] \in {"outside", "woken", "run", "follow"}
+                       /\ (IF s.pc[w] # "run" THEN TRUE
+                           ELSE IF Waits[s.held[w]] = 0 THEN TRUE ELSE s.ran[Waits[s.held[w]]] > 0)
 WorkerStep(s, w) == CASE s.pc[w] = "outside" -> HEnter(s, w)
                       [] s.pc[w] = "woken"   -> HWake(s, w)
                       [] s.pc[w] = "run"     -> HRun(s, w)
